@@ -557,7 +557,8 @@ def jobs(tier):
     pats = [("ok", "ok", "ok"), ("ok", "zero", "ok", "ok"), ("ok", "nan", "ok", "ok"), ("ok", "gasnan", "ok", "ok")]
     if tier != "quick":
         pats += [("zero", "ok", "nan", "ok", "ok"), ("ok", "ok", "ok", "ok", "ok"), ("ok", "zero", "zero", "ok", "gasnan", "ok", "ok"),
-                 ("nan", "ok", "ok", "zero", "ok", "ok", "ok", "ok")]
+                 ("nan", "ok", "ok", "zero", "ok", "ok", "ok", "ok"), ("ok", "gasnan", "zero", "ok", "nan", "ok", "ok", "zero", "ok", "ok"),
+                 ("ok",) * 6]
     for p in pats:
         for filt in (True, False):
             if not filt and ("nan" in p or "gasnan" in p):
